@@ -352,6 +352,14 @@ func (m *obsModel) observe(n *e1Node, e *logEntry, outs []outMsg, before *priv) 
 			}
 		}
 	}
+	// C17: the sessions a services link introduced end with it (they are reachable only through it)
+	for k, s := range after.Sess {
+		if k[1] != 0 {
+			if _, link := after.Sess[[2]uint64{k[0], 0}]; !link {
+				r.violate("C17", "pseudo-client-outlives-link", "pseudo-client-outlives-link", fmt.Sprintf("index %d (%s): session %d.%d (nick %q) still exists although session %d, through which it was introduced, ended at index %d", e.Index, descr(e), k[0]-r.offset, k[1], s.Nick, k[0]-r.offset, m.ended[k[0]]))
+			}
+		}
+	}
 
 	// --- C14: invariants and limits ---
 	for _, bad := range ircserver.VerifInvariants(n.irc) {
@@ -1050,7 +1058,12 @@ func (m *obsModel) checkJoin(e *logEntry, in *irc.Message, actor *ircserver.Veri
 	}
 	// bans: against nick!user@host and nick!user@remote-address
 	id1 := fmt.Sprintf("%s!%s@robust/0x%x", actor.Nick, actor.User, actor.Id)
-	id2 := actor.Nick + "!" + actor.User + "@" + actor.RemoteAddr
+	// the address a message arrives from replaces the stored one before the command runs
+	addr := actor.RemoteAddr
+	if e.Msg != nil && e.Msg.RemoteAddr != "" {
+		addr = e.Msg.RemoteAddr
+	}
+	id2 := actor.Nick + "!" + actor.User + "@" + addr
 	for k, mask := range cb.Bans {
 		// the address form of a mask that names a session is the one stored alongside; the stored expressions
 		// tell which literal it was resolved to at the time the ban was set
